@@ -86,7 +86,7 @@ class SimTransport(object):
 
     def getHost(self):
         b = self.connector.bindAddress
-        host = b[0] if b and b[0] not in (None, '', '0.0.0.0') else self.reactor.local_host
+        host = b[0] if b and b[0] not in (None, '', '0.0.0.0', '::') else self.reactor.local_host
         return Address(host, 54321)
 
     def getPeer(self):
